@@ -18,6 +18,11 @@ PROPS = {
     "C18": {"level": "fault_enumeration", "engines": "S", "quick": {"cases": 112, "secs": 50, "shrink_secs": 8}, "thorough": DEFAULT_T,
             "rule": "workloads: knut format on one file, on 2-4 files (parseable, unparseable, mixed; worker count varied), in an unwritable directory, and knut infer --inplace (training file separate or identical to the target); per workload the fault-free run is traced, then every file-system operation is failed with every applicable errno, every byte offset of every payload write (all offsets up to 700 bytes, 68 drawn offsets above) is cut short with ENOSPC, and a crash is placed before every operation and after the last, with every legal durable image enumerated (directory operations persist in order, any suffix may be lost; data is durable only after fsync, any prefix of unsynced bytes may persist); a case is non-trivial when the fault-free run changes at least one file",
             "assumptions": ["crash model: ordered metadata, data durable after fsync (ext4 data=ordered-like); one fault per run", "exit status after a fault belongs to C14 and is not judged here", "fetch.writeFile is not exercised (no network)"]},
+    "C12": {"level": "exploration", "engines": "S", "quick": {"cases": 3000, "secs": 45, "shrink_secs": 8}, "thorough": DEFAULT_T,
+            "rule": "price graphs over 2-6 commodities: trees, graphs with alternative paths and cycles, possibly disconnected, with redeclarations over 6 days, inverse declarations, 1/3-like reciprocals and (sub-check zero-price) a zero price; every valuation commodity; each graph is normalised at the library API of the instrumented price package under 6 map-order permutations and once through balance -v; distinct by the hash of the declarations and the valuation commodity",
+            "assumptions": ["two different prices for one pair on one day are excluded (ambiguous by construction)", "the per-step truncation is applied from the valuation commodity outwards, as the statement says"]},
+    "C03": {"level": "exploration", "engines": "S", "quick": {"cases": 1500, "secs": 45, "shrink_secs": 10}, "thorough": DEFAULT_T, "rule": GEN_RULE + "; price histories are tree-shaped (a unique derivation per commodity and day), sparse or daily, direct, inverse and chained; a fifth of the journals leave a commodity without a price before its first use",
+            "assumptions": ["tolerance per cell: 1e-8 per truncating step that contributes (postings plus revaluation days)", "windows start at the first booking and --close=false (with a later --from the report shows changes only, which the statement's 'positions' does not describe)", "-m rules match asset/liability accounts only"]},
     "C02": {"level": "exploration", "engines": "S", "quick": DEFAULT_Q, "thorough": DEFAULT_T, "rule": GEN_RULE, "assumptions": []},
     "C06": {
         "level": "exploration",
@@ -29,3 +34,30 @@ PROPS = {
                         "stderr is not part of the property (stdout and exit status are)"],
     },
 }
+
+
+LEVEL_TEXT = {
+    "C01": "Exploration: generated accepted journals x valuation commodities x window/interval/last/diff/close combinations are run through the real balance command under sampled schedules and map orders; the Delta row of every report must be zero and the totals must be the column sums. Conservation is robust against scheduling, so most of the deciding power is workload x oracle; the level is sampling, not proof.",
+    "C02": "Exploration: every cell of the unvalued report (text, --digits 8) is compared with an independent ledger computation (RefLedger: window, alignment, closing, --diff, filters, -m level:suffix, --remap, hidden accounts) under sampled schedules and map orders; row set, section and totals are checked too.",
+    "C03": "Exploration: A/L values, mirrored revaluation gains and booking-day values of every row and column are compared with RefValuation (prices by the rule C12 states, tolerance 1e-8 per truncating step); the command must fail iff a needed price is missing.",
+    "C04": "Exploration: the verdict of check (and balance/print) is compared with RefCheck, an independent lifecycle model, on valid journals and single-defect mutants spread over include trees, under sampled arrival orders; the diagnostic must name an offending directive.",
+    "C05": "Exploration (metamorphic): the canonical single-file chronological layout against permuted/re-split layouts under different loader schedules with the map order held equal: identical verdict, byte-identical balance for a battery of 6-8 flag sets, print identical up to order inside (date, kind) groups.",
+    "C06": "Exploration: one input and argv, 6-10 runs under different scheduler seeds, biases, map-order modes/seeds, lock-yield policies and worker counts: stdout and exit status must be identical (balance, print, check --write, transcode, portfolio weights/returns, infer, importers).",
+    "C09": "Exploration: print output must be accepted, printing it again must reproduce it byte for byte, and a battery of balance reports must equal those of the original, for every output the concurrent loader can produce (sampled schedules).",
+    "C12": "Exploration: price graphs (trees, alternative paths, cycles, disconnected, redeclarations, inverse, zero) normalised at the library API of the instrumented price package under permuted map orders and through balance -v; results must be 1 for V, the latest direct declaration if one exists, otherwise a chain product of latest declarations; unconnected commodities must have no price.",
+    "C14": "Fault enumeration for read faults (per workload every read operation x ENOENT/EACCES/EISDIR/EIO/truncated/bit-flipped is injected) plus sampled include graphs (self, cycles, diamond, missing), flag faults, byte soup and edge inputs; oracle: terminates within budgets, exit 0 or non-zero with a diagnostic, no panic or deadlock, stdout empty when a report command fails, an error in any file fails the command.",
+    "C18": "Fault enumeration: per workload every file-system operation of the real natefinch/atomic write path (instrumented copy) is failed with every applicable errno, every byte offset of the payload write is cut short, and a crash is placed before every operation with every legal durable image enumerated; each target must hold exactly its old or exactly its new bytes.",
+    "C19": "Exploration: (a) no deadlock or hang, (b) loaded-directive census equals the union of the files, (c) failing stages stop everything and the genuine error is reported, all under the seeded serialising scheduler (engine S); (d) no data race under the race detector with seeded perturbation (engine R); (e) the shared registries are linearizable interning tables (porcupine over histories recorded under the scheduler at lock granularity).",
+}
+
+NOT_APPLICABLE = [
+    {"property_id": "C07", "reason": "scanner/parser are pure functions of a byte string: no schedule, clock, fault or iteration order for a simulator to vary (truncated and bit-flipped reads in C14 do run the parser on damaged input, but the range invariants are not decided)"},
+    {"property_id": "C08", "reason": "printer.Format is a pure text-to-text function of the parsed tree; the only fault-bearing clause (an unparseable file stays untouched, other files unaffected) is decided under C18"},
+    {"property_id": "C10", "reason": "transaction.expand is sequential arithmetic on one transaction; its one known defect (equity legs dropped) was found through C02's reference and fixed"},
+    {"property_id": "C11", "reason": "date.NewPartition/Align are pure calendar arithmetic over given windows; nothing for a scheduler, clock or disk to vary"},
+    {"property_id": "C13", "reason": "importers are single-threaded conversions of well-formed statements; the only nondeterminism among them (revolut2 assertion order) is exercised under C06's import sub-check"},
+    {"property_id": "C17", "reason": "table rendering is pure formatting arithmetic on a finished table"},
+    {"property_id": "C15", "reason": "pending: check under construction in this session (will be claimed)"},
+    {"property_id": "C16", "reason": "pending: check under construction in this session (will be claimed)"},
+    {"property_id": "C20", "reason": "pending: check under construction in this session (will be claimed)"},
+]
